@@ -38,6 +38,14 @@ RULE_LNK = ("stream LNK (link, packets, schedule): 1..=8 packets of mixed sizes 
             "device; the recorded wire image is replayed to the receiver with 'no data yet' answers inserted by 6 gap patterns (none, before every byte/frame, periodic, random)")
 RULE_SND = ("stream SND (link, packet, device answers): USART would-block 0..=50 times before each byte and scripts that stop accepting early; CAN would-block runs, a displaced report at every frame index, "
             "scripts that end early; serial port 1-byte writes, short writes of random sizes, interruptions, an io error or a zero-length write at a random write index, flush failure")
+PRO = dict(stream="PRO", module="RP.Glue.StreamProto")
+EXC = dict(stream="EXC", module="RP.Glue.StreamProto")
+RULE_PRO = ("stream PRO (own address, history of up to 60 operations): own address in {0, 1, 0xfffe, 0xffff, random}; register (own-address or capture-all handler, optionally transmitting 1-2 packets "
+            "to other devices / broadcast), remove (live, already removed, never issued id), tick with a scripted link answer (packet to own / broadcast / foreign address, data or error packet; "
+            "'nothing received'; every InterfaceError constructor), send_packet (own / broadcast / other destination) with scripted link answers; handlers log (id, label, packet)")
+RULE_EXC = ("stream EXC (one exchange call): all 16 requested kinds x both capture modes x single/multi reply; request to own / broadcast / other address with 0..3 registered handlers; queues of 0..12 "
+            "incoming packets (matching encodings addressed to own / broadcast / another device, another kind, error packets, truncated encodings, garbage) optionally containing or ending in "
+            "'nothing received' or a link error; send answers incl. errors; the trace of send / wait / get events is recorded by the mock link and the wait closure")
 RULE_DEC = ("stream DEC (decoder kind, packet): every decoder x every payload length 0..=70 with the kind's code in place and tag-like bytes; "
             "valid encodings from an independent layout table, each perturbed (error flag, every code 0..=0x12/0xffff, length +-1, truncation at a random "
             "point, bit flip, foreign decoder, every variant tag and flag byte 0..=255, 32-bit message tags incl. >= 256, non-zero padding, declared data "
@@ -92,6 +100,42 @@ PROPS = {
         streams=[dict(SND, view="view_C14", ok="ok_C14")],
         rule=RULE_SND,
         assumptions=["hard write errors on USART are discarded by the code; the property demands error propagation only for the serial port and CAN (DESIGN.md section 9.3)"],
+    ),
+    "C15": dict(
+        vfiles=["Props/C15"],
+        technique="Coq proof: handle_packet characterised as a filter-map over the key-sorted registry (induction on the table), tick by case analysis on the link answer; correspondence on operation histories with logging handlers, the table being rebuilt from the ids the implementation returned",
+        level_text="Theorems C15_tick (one get; packet delivered unmodified, once, in key order, to every handler if own/broadcast else to the capture-all handlers only; handlers' transmissions reach the link in order; "
+                   "'nothing received' = Ok without calls; any other link error returned without calls), C15_selection, C15_handler_sends; for every table, own address (incl. 0xffff) and link answer.",
+        level_note=NOTE_COMMON + " Handler closures are modelled as scripts (label, capture flag, packets they transmit to other addresses); re-entrant dispatch through the aliasing transmute is outside the model.",
+        streams=[dict(PRO, view="view_C15", ok="ok_C15")],
+        rule=RULE_PRO,
+    ),
+    "C16": dict(
+        vfiles=["Props/C16"],
+        technique="Coq proof by case analysis on destination vs own address vs broadcast over the model of send_packet, using the handle_packet characterisation; correspondence on operation histories",
+        level_text="Theorems C16_send (own address: every local handler once, not on the link, Ok; own = broadcast address: also transmitted and the link answer returned; other destination: transmitted once, "
+                   "unmodified, no handler, link answer returned) and C16_transmit.",
+        level_note=NOTE_COMMON,
+        streams=[dict(PRO, view="view_C16", ok="ok_C16")],
+        rule=RULE_PRO,
+    ),
+    "C17": dict(
+        vfiles=["Props/C17"],
+        technique="Coq proof: registry as key-sorted association list refining a finite set; get_next_handler_id returns the least free id (induction over the sorted keys), insert/remove change exactly one key and leave all other lookups unchanged; sortedness is an invariant of every history; correspondence on register/remove/deliver histories",
+        level_text="Theorems C17_step (register: returned id is not registered - the least free one -, all other handlers unchanged; remove: exactly that handler goes, others unchanged; unknown id: 'no such handler', nothing changes), "
+                   "C17_history (the invariant holds after every finite history), C17_only_live_invoked (a removed handler is never invoked).",
+        level_note=NOTE_COMMON + " BTreeMap is modelled as a key-sorted association list; the u32 id counter cannot overflow with fewer than 2^32 live handlers.",
+        streams=[dict(PRO, view="view_C17", ok="ok_C17")],
+        rule=RULE_PRO,
+    ),
+    "C18": dict(
+        vfiles=["Props/C18"],
+        technique="Coq proof by induction over the queue of incoming results (non-matching prefix skipped, first match / first 'nothing received' / first error decides), composed with the send_packet model; correspondence with an independently written queue scan as checker",
+        level_text="Theorems C18_routing (request routed like a send; a send error returns before the wait callback), C18_single (first matching packet in arrival order, nothing after it consumed; dry link = timeout; "
+                   "link error propagated), C18_multi (all matches in order, link drained), for all 16 kinds and both capture modes.",
+        level_note=NOTE_COMMON,
+        streams=[dict(EXC, view="view_C18", ok="ok_C18")],
+        rule=RULE_EXC,
     ),
     "C19": dict(
         vfiles=["Props/C19"],
